@@ -360,7 +360,9 @@ C07_Resolve_C ==
                  /\ (Post.full /\ pre.full =>
                         Post.vals[OKey(x, Post.winner[x])].v = pre.vals[OKey(x, lf)].v)
        ELSE (Post.doc.ok /\ pre.doc.ok /\ x \in DOMAIN Post.doc.arrays /\ x \in DOMAIN pre.doc.arrays /\ pre.full) =>
-                /\ Rng(Post.doc.arrays[x]) = Rng(pre.doc.arrays[x])
+                \* the same objects are visible as before (an element referenced by several arrays may be shown
+                \* by another one of them once the adopted order changes the traversal)
+                /\ DOMAIN Post.doc.objs = DOMAIN pre.doc.objs
                 /\ LET s == pre.orders[OKey(x, lf)].seq IN
                    Sub(Post.doc.arrays[x], Rng(s)) = Sub(s, Rng(Post.doc.arrays[x]))
     /\ (lf = pre.winner[x] => Post.doc = pre.doc)                              \* choosing the winner changes nothing
@@ -386,7 +388,11 @@ C09_CrashAtomic_C ==
            /\ d.applied = d.ccn
            /\ TreeFromBlocksOn(f, d)
            /\ WinnerRuleOnD(f, d)
-        /\ (E.op = "Commit" /\ FreshOK(cs[1].fresh) /\ FreshOK(cs[n].fresh) =>
+        \* for the commit itself: the previous state or the new state, never a mixture -- unless the pack written
+        \* by this commit happens to complete a block of someone else that was held back (then that block, whole,
+        \* becomes visible too: still no mixture, and covered by the clauses above)
+        /\ (E.op = "Commit" /\ FreshOK(cs[1].fresh) /\ FreshOK(cs[n].fresh)
+               /\ Derive(f).ccn \subseteq (Derive(cs[1].fresh).ccn \cup Rng(E.res.val)) =>
                View(f) \in {View(cs[1].fresh), View(cs[n].fresh)})
 C09_FailedCommit_A == Op("Commit") /\ Has2 /\ \E j \in DOMAIN E.x.writes : E.x.writes[j].out = "failed"
 C09_FailedCommit_C ==
